@@ -32,6 +32,14 @@ def balanced_inputs(ctx, n):
         ts = b.split(".")
         if len(ts) > 1:
             near.append(a + ">>" + ".".join(ts[:-1]))
+    # near misses in charge only: every element conserved, net charge not — all sign combinations of the two sides
+    charge_only = [
+        "[I-].[I-]>>II", "II>>[I-].[I-]", "[Cl-].[Cl-]>>ClCl", "[O-]C(=O)C([O-])=O>>O=C=O.O=C=O", "O=C=O.O=C=O>>[O-]C(=O)C([O-])=O",
+        "[S-]C.[S-]C>>CSSC", "CSSC>>C[S-].C[S-]", "[Fe+2]>>[Fe+3]", "[Fe+3]>>[Fe+2]", "[Cu+]>>[Cu]", "[Cu]>>[Cu+2]",
+        "[Na+].[Cl-]>>[Na].[Cl-]", "[Na].[Cl-]>>[Na+].[Cl-]", "[O-]C(C)=O.[O-]C(C)=O>>CC(=O)OOC(C)=O", "[Br-].[Br-].[Br-]>>BrBr.[Br-]",
+        "[OH-].[OH-]>>OO", "OO>>[OH-].[OH-]", "[I-].[I-].[Cu+2]>>II.[Cu+2]", "[Zn+2].[Cu]>>[Zn].[Cu]",
+    ]
+    near = charge_only + near
     return out, near
 
 
@@ -60,7 +68,7 @@ def statement(ctx, tr):
 
 def search(ctx):
     ins, near = balanced_inputs(ctx, 1500)
-    tr = pipeline.traced_run(ins, n_jobs=14, batch_size=500)
+    tr = pipeline.traced_run(ins + near, n_jobs=14, batch_size=500)
     if tr["out"] is not None:
         statement(ctx, tr)
 
@@ -70,7 +78,7 @@ def run(ctx):
         ctx,
         MODULE,
         "curated balanced reactions shipped with the validation set (filtered by an independent RDKit balance), their reversals, "
-        "doubles and unions, ionic / heavy-element / isotope / dot-closure specials, and near misses with one product dropped "
+        "doubles and unions, ionic / heavy-element / isotope / dot-closure specials, and near misses (charge-only imbalances of every sign combination; one product dropped) "
         "(for the converse), plus the shared traced mix; each row compared with the Lean row machine stage by stage "
         "(non-trivial = truly balanced input; distinct by input)",
         ["truth = RDKit composition by atomic number and charge"],
@@ -78,7 +86,7 @@ def run(ctx):
     if drv:
         quick = ctx.tier == "quick"
         ins, near = balanced_inputs(ctx, 120 if quick else 4400)
-        tr = pipeline.traced_run(ins + near[: (10 if quick else 300)], n_jobs=12, batch_size=(97 if quick else 500))
+        tr = pipeline.traced_run(ins + near[: (30 if quick else 320)], n_jobs=12, batch_size=(97 if quick else 500))
         pipeline.compare_trace(ctx, tr)
         if tr["error"] or tr["out"] is None:
             ctx.corr_break("Pipeline:run-raised", {"n": len(ins)}, "model never raises", tr["error"])
